@@ -530,13 +530,55 @@ func (t *Tr) havocForCall(cc *ssa.CallCommon, ct *Contract, env *Env, st *State)
 			}
 		}
 		sort.Strings(extra)
+		pre := map[string]Term{}
 		for _, m := range extra {
 			if m == compAlloc {
 				continue
 			}
 			t.ensureComp(m)
 			if _, ok := c.compSort[m]; ok {
+				if _, seen := pre[m]; !seen {
+					pre[m] = c.get(st, m)
+				}
 				c.havoc(st, m)
+			}
+		}
+		// an error cell the closure writes holds nil or an error the closure can produce: not a sentinel
+		// that the closure (and what it calls) never references
+		for _, a := range cc.Args {
+			mc, ok := a.(*ssa.MakeClosure)
+			if !ok {
+				continue
+			}
+			for _, b := range mc.Bindings {
+				al, ok := b.(*ssa.Alloc)
+				if !ok || deref(al.Type()).String() != "error" {
+					continue
+				}
+				cn := cellName(al)
+				oldv, ok := pre[cn]
+				if !ok {
+					continue
+				}
+				for _, gi := range t.sp.GlobalInvs {
+					sp := t.w.SPkgs[gi.Pkg]
+					if sp == nil {
+						continue
+					}
+					g, ok := sp.Members[gi.Global].(*ssa.Global)
+					if !ok || deref(g.Type()).String() != "error" || !t.ms.frozenOK(gi) {
+						continue
+					}
+					if t.ms.globalUse[mc.Fn.(*ssa.Function)][gi.Pkg+"."+gi.Global] {
+						continue
+					}
+					comp := compGlobal(gi.Pkg, gi.Global)
+					c.regComp(comp, SInt)
+					cv := c.get(st, cn)
+					// the cell keeps its old value or receives such an error
+					c.assert(or(eq(cv, tInt(0)), not(eq(cv, c.get(st, comp))), eq(cv, oldv)))
+					t.trusted["sentinel errors ("+gi.Pkg+"."+gi.Global+" ...) are only produced by functions that reference them (they do not travel through the heap)"] = true
+				}
 			}
 		}
 	}
